@@ -42,6 +42,8 @@ func init() {
 		Explanation: "wip"}
 	props["C14"] = &PropSpec{ID: "C14", Engines: []string{"OPTS", "ERRPRED"}, Rules: []string{"LOWER", "ERRPRED", "REFLVALID", "TAGS", "REJECT", "STRUCTWALK"},
 		Explanation: "wip"}
+	props["C10"] = &PropSpec{ID: "C10", Engines: []string{"CONVERT", "ERRFLOW"}, Rules: []string{"CONVERT", "ERRFLOW-E1", "ERRFLOW-E4"},
+		Explanation: "wip"}
 	props["C17"] = &PropSpec{ID: "C17", Engines: []string{"ERRPRED"}, Rules: []string{"ERRPRED", "RESULTLIT", "LEN"},
 		Explanation: "wip"}
 	props["C18"] = &PropSpec{ID: "C18", Engines: []string{"HEAP"}, Rules: []string{"HEAP"},
